@@ -1,10 +1,167 @@
-(* Property C08 — theorems only (placeholder while the proofs are being built). *)
+(* Property C08 — theorems only.
+   Model: Model/C08_Archive.v (deap/tools/support.py, classes HallOfFame and ParetoFront).
+   hof_run m batches / pf_run batches : the archive after showing the update batches in order
+   (None = an exception was raised).  seen = concat batches = everything ever shown.
+   ind / fitness / similar are arbitrary: any individual type, any weighted-fitness function
+   (1..n objectives, any weights), any similarity operator meeting the stated hypotheses.
+   The archive stores values (deep copies); see the level note for what that means. *)
 From Coq Require Import List ZArith Bool.
-From DV Require Import Base.PyTuple Base.PyList Model.C08_Archive.
+From DV Require Import Base.PyTuple Base.PyList Model.C08_Archive
+  Proofs.C08_Lists Proofs.C08_Refine Proofs.C08_Hof Proofs.C08_Pf.
 Import ListNotations.
 Local Open Scope Z_scope.
 
-Example C08_nonvacuous :
-  hof_run cind wv (csimilar SimEq) 2 [[mkind 0 [0] [1]; mkind 1 [1] [3]]; []; [mkind 2 [2] [2]]]
-  = Some (mkhof [[2]; [3]] [mkind 1 [1] [3]; mkind 2 [2] [2]]).
+(* ---------------------------------------------------------------- HallOfFame *)
+
+(* For ANY similarity operator and any history: update never raises, the parallel lists never
+   drift (keys = reversed fitnesses of items), items are best first, at most m, all shown. *)
+Theorem C08_hof_shape :
+  forall (ind : Type) (fitness : ind -> list Z) (similar : ind -> ind -> bool)
+         (m : Z) (batches : list (list ind)),
+  1 <= m ->
+  exists h, hof_run ind fitness similar m batches = Some h /\
+    keys h = rev (map fitness (items h)) /\
+    (forall i j a b, (i < j)%nat -> nth_error (items h) i = Some a -> nth_error (items h) j = Some b ->
+                     fit_lt (fitness a) (fitness b) = false) /\
+    zlen (items h) <= m /\
+    (forall a, In a (items h) -> In a (concat batches)).
+Proof. exact hof_shape_thm. Qed.
+Print Assumptions C08_hof_shape.
+
+(* members are pairwise distinct under the similarity operator (symmetric operator) *)
+Theorem C08_hof_distinct :
+  forall (ind : Type) (fitness : ind -> list Z) (similar : ind -> ind -> bool),
+  (forall x y, similar x y = similar y x) ->
+  forall (m : Z) (batches : list (list ind)),
+  1 <= m ->
+  exists h, hof_run ind fitness similar m batches = Some h /\
+    forall i j a b, i <> j -> nth_error (items h) i = Some a -> nth_error (items h) j = Some b ->
+                    similar a b = false.
+Proof. exact hof_distinct_thm. Qed.
+Print Assumptions C08_hof_distinct.
+
+(* hof_inv of DESIGN section 5, all clauses together *)
+Theorem C08_hof_inv :
+  forall (ind : Type) (fitness : ind -> list Z) (similar : ind -> ind -> bool),
+  (forall x y, similar x y = similar y x) ->
+  (forall x, similar x x = true) ->
+  forall (m : Z) (batches : list (list ind)),
+  1 <= m ->
+  (forall a b, In a (concat batches) -> In b (concat batches) -> similar a b = true -> fitness a = fitness b) ->
+  exists h, hof_run ind fitness similar m batches = Some h /\
+    keys h = rev (map fitness (items h)) /\
+    (forall i j a b, (i < j)%nat -> nth_error (items h) i = Some a -> nth_error (items h) j = Some b ->
+                     fit_lt (fitness a) (fitness b) = false) /\
+    zlen (items h) <= m /\
+    (forall i j a b, i <> j -> nth_error (items h) i = Some a -> nth_error (items h) j = Some b ->
+                     similar a b = false) /\
+    (forall a, In a (items h) -> In a (concat batches)).
+Proof. exact hof_inv_thm. Qed.
+Print Assumptions C08_hof_inv.
+
+(* no distinct individual ever shown is strictly better than the worst member:
+   every s ever shown is similar to a member, or the archive is full and
+   not (fitness s > fitness self[-1]) *)
+Theorem C08_hof_best_of_seen :
+  forall (ind : Type) (fitness : ind -> list Z) (similar : ind -> ind -> bool),
+  (forall x y, similar x y = similar y x) ->
+  (forall x, similar x x = true) ->
+  forall (m : Z) (batches : list (list ind)),
+  1 <= m ->
+  (forall a b, In a (concat batches) -> In b (concat batches) -> similar a b = true -> fitness a = fitness b) ->
+  exists h, hof_run ind fitness similar m batches = Some h /\
+    forall s, In s (concat batches) ->
+      (exists a, In a (items h) /\ similar s a = true) \/
+      (zlen (items h) = m /\
+       forall worst, py_get (items h) (-1) = Some worst -> fit_gt (fitness s) (fitness worst) = false).
+Proof. exact hof_best_of_seen_thm. Qed.
+Print Assumptions C08_hof_best_of_seen.
+
+(* while at most m pairwise-distinct individuals were shown (every pairwise non-similar list of
+   shown individuals has length <= m), every individual shown is present up to similarity.
+   nosim l : no element of l is similar to a later element (Proofs/C08_Hof.v). *)
+Theorem C08_hof_all_when_room :
+  forall (ind : Type) (fitness : ind -> list Z) (similar : ind -> ind -> bool),
+  (forall x y, similar x y = similar y x) ->
+  (forall x, similar x x = true) ->
+  forall (m : Z) (batches : list (list ind)),
+  1 <= m ->
+  (forall a b, In a (concat batches) -> In b (concat batches) -> similar a b = true -> fitness a = fitness b) ->
+  (forall l, nosim ind similar l -> incl l (concat batches) -> zlen l <= m) ->
+  exists h, hof_run ind fitness similar m batches = Some h /\
+    forall s, In s (concat batches) -> exists a, In a (items h) /\ similar s a = true.
+Proof. exact hof_all_when_room_thm. Qed.
+Print Assumptions C08_hof_all_when_room.
+
+(* ---------------------------------------------------------------- ParetoFront *)
+
+(* pf_inv: never raises, keys mirror items, lexicographic order, members mutually non-dominated;
+   for ANY similarity operator, fitnesses of one common length *)
+Theorem C08_pf_inv :
+  forall (ind : Type) (fitness : ind -> list Z) (similar : ind -> ind -> bool)
+         (batches : list (list ind)) (nobj : nat),
+  (forall s, In s (concat batches) -> length (fitness s) = nobj) ->
+  exists h, pf_run ind fitness similar batches = Some h /\
+    keys h = rev (map fitness (items h)) /\
+    (forall i j a b, (i < j)%nat -> nth_error (items h) i = Some a -> nth_error (items h) j = Some b ->
+                     fit_lt (fitness a) (fitness b) = false) /\
+    (forall a b, In a (items h) -> In b (items h) -> fit_dom (fitness a) (fitness b) = false).
+Proof. exact pf_inv_thm. Qed.
+Print Assumptions C08_pf_inv.
+
+(* pf_exact: the archive is exactly the distinct individuals shown whose fitness no fitness
+   shown dominates, one copy each *)
+Theorem C08_pf_exact :
+  forall (ind : Type) (fitness : ind -> list Z) (similar : ind -> ind -> bool),
+  (forall x, similar x x = true) ->
+  (forall x y, similar x y = similar y x) ->
+  forall (batches : list (list ind)) (nobj : nat),
+  (forall s, In s (concat batches) -> length (fitness s) = nobj) ->
+  exists h, pf_run ind fitness similar batches = Some h /\
+    (forall a, In a (items h) ->
+       In a (concat batches) /\ forall t, In t (concat batches) -> fit_dom (fitness t) (fitness a) = false) /\
+    (forall s, In s (concat batches) ->
+       (forall t, In t (concat batches) -> fit_dom (fitness t) (fitness s) = false) ->
+       exists a, In a (items h) /\ fitness s = fitness a /\ similar s a = true) /\
+    (forall i j a b, i <> j -> nth_error (items h) i = Some a -> nth_error (items h) j = Some b ->
+       fitness a = fitness b -> similar a b = false).
+Proof. exact pf_exact_thm. Qed.
+Print Assumptions C08_pf_exact.
+
+(* the meaning of the comparison functions used above (C01): lexicographic order / dominance *)
+Theorem C08_order_meaning : forall a b : list Z,
+  (fit_lt a b = true <-> lex_lt a b) /\
+  (fit_gt a b = true <-> lex_lt b a) /\
+  (fit_dom a b = true <->
+     Forall (fun p => fst p >= snd p) (zip a b) /\ Exists (fun p => fst p > snd p) (zip a b)).
+Proof.
+  intros a b. split; [apply fit_lt_spec|]. split; [rewrite fit_gt_lt; apply fit_lt_spec|apply fit_dom_spec].
+Qed.
+Print Assumptions C08_order_meaning.
+
+(* ---------------------------------------------------------------- non-vacuity *)
+(* the default operator (equality of the list contents) meets the hypotheses *)
+Example C08_simeq_ok :
+  (forall x, csimilar SimEq x x = true) /\ (forall x y, csimilar SimEq x y = csimilar SimEq y x).
+Proof.
+  assert (R : forall l, zl_eqb l l = true) by (induction l; cbn; rewrite ?Z.eqb_refl; auto).
+  assert (S : forall l l', zl_eqb l l' = zl_eqb l' l).
+  { induction l; destruct l'; cbn; auto. rewrite Z.eqb_sym. now rewrite IHl. }
+  split; intros; cbn; auto.
+Qed.
+
+(* a concrete history: capacity 2, a re-submission, an equal-fitness newcomer, an eviction *)
+Example C08_nonvacuous_hof :
+  let A := mkind 0 [0] [1; 5] in let B := mkind 1 [1] [3; 0] in
+  let C := mkind 2 [2] [2; 2] in let D := mkind 3 [3] [1; 5] in
+  hof_run cind wv (csimilar SimEq) 2 [[A; B]; []; [A; D]; [C]]
+  = Some (mkhof [[2; 2]; [3; 0]] [B; C]).
+Proof. vm_compute. reflexivity. Qed.
+
+(* one individual dominating two members at once *)
+Example C08_nonvacuous_pf :
+  let A := mkind 0 [0] [0; 2] in let B := mkind 1 [1] [1; 1] in
+  let C := mkind 2 [2] [2; 0] in let D := mkind 3 [3] [1; 2] in
+  pf_run cind wv (csimilar SimEq) [[A; B; C]; [D; D]]
+  = Some (mkhof [[1; 2]; [2; 0]] [C; D]).
 Proof. vm_compute. reflexivity. Qed.
